@@ -583,12 +583,17 @@ class C07(Property):
                 c["scripts"] = [sc[t] for t in sorted(keep)]
                 c["sched"] = [ren[x] for x in sched if x in ren]
                 res.append(c)
-        for t in range(len(sc)):
+        longest = sorted(range(len(sc)), key=lambda t: -len(sc[t]))[:6]
+        for t in longest:
             if len(sc[t]) > 4:
                 for part in (sc[t][:len(sc[t]) // 2], sc[t][len(sc[t]) // 2:]):
                     c = dict(case)
                     c["scripts"] = sc[:t] + [part] + sc[t + 1:]
                     res.append(c)
+        if case.get("logonly") and (len(sc) > 8 or sum(len(x) for x in sc) > 40):
+            # a big many-keys case: which keys collide is decided anew in every run of a variant that hashes keys with a
+            # random seed, so small candidates seldom fail again; only the cheap big cuts are tried
+            return res
         for t in range(len(sc)):
             if len(sc) > 1:
                 c = dict(case)
